@@ -25,6 +25,7 @@ type vGen struct {
 	pos    int
 	n      int
 	esc    bool // some field needed an escape sequence in its presentation form
+	alpha  bool // textual octets range over 0x41..0x7e without backslash instead of a-z
 	anyOct bool // names/strings may contain arbitrary octets (more paths) instead of letters only
 	maxStr, maxBlob, maxLabels, maxOct, maxList int
 	nameOffs []int  // offsets of domain names inside g.wire
@@ -80,6 +81,7 @@ func (g *vGen) choice(name string, k int) int {
 func vNewGen(pfx string) *vGen {
 	return &vGen{pfx: pfx, ok: true,
 		anyOct:    vParam("gen.any", 0) == 1,
+		alpha:     vParam("gen.alpha", 0) == 1,
 		maxStr:    vParam("gen.str", 2),
 		maxBlob:   vParam("gen.blob", 2),
 		maxLabels: vParam("gen.labels", 1),
@@ -288,7 +290,12 @@ func (g *vGen) octets(k int, textual bool) []byte {
 	b := g.dBytes(k)
 	if textual && !g.anyOct {
 		for i := range b {
-			vAssume(b[i] >= 'a' && b[i] <= 'z')
+			if g.alpha {
+				// printable octets the library writes raw in names: A-Z [ ] ^ _ ` a-z { | } ~ (no backslash)
+				vAssume(b[i] >= 'A' && b[i] <= '~' && b[i] != '\\')
+			} else {
+				vAssume(b[i] >= 'a' && b[i] <= 'z')
+			}
 		}
 	}
 	return b
